@@ -613,6 +613,12 @@ func (w *World) judge(c *call) {
 	}
 	sort.Strings(urls)
 	errText := canonErr(c.Err)
+	if c.Err != nil && (c.Cancelled || c.Deadline > 0) {
+		// after the caller's context ended, GetSCTs' select between ctx.Done and the group events is a
+		// genuine tie inside the code under test: which groups it still records as failed is not
+		// reproducible (and not judged), so it must not reach the event log
+		errText = "error after the caller's context ended"
+	}
 	s.Logf("%s done err=%q scts=%v contacted=%d", c.Party, errText, urls, len(c.Contacted))
 	if c.Panic != "" {
 		s.Violate("panic", c.Kind, "%s panicked: %s", c.Party, c.Panic)
